@@ -256,6 +256,99 @@ func (g *c06Gen) okCommit(dst string) {
 	}
 }
 
+// A registration that only ran on a DISCARDED context branch (dry run of a submitted proposal, failed multi-step
+// execution, a real MsgSubmitProposal that never passes) confers nothing: afterwards the named account tries every
+// lookup / message kind on the named chain, previously registered accounts keep exactly what they had, and a
+// discarded RE-registration does not move a registered relayer.
+func (g *c06Gen) genDiscarded() {
+	r := g.r
+	modes := []string{"drop", "fail", "gov"}
+	targets := []string{c06S}
+	for _, c := range c06TssChains {
+		if _, ok := g.tss[c]; ok {
+			targets = append(targets, c)
+		}
+	}
+	x := targets[r.Rng.Intn(len(targets))]
+	// the named account: the TSS account of a TSS chain, otherwise an account without committed registration for x
+	var raw, canon string
+	if t, ok := g.tss[x]; ok {
+		raw, canon = t, strings.ToLower(t)
+	} else {
+		off := r.Rng.Intn(c06NAcct)
+		for i := range c06Accts {
+			a := c06Accts[(i+off)%c06NAcct]
+			if reg, ok := g.w.lastReg[a.lower]; !ok || !c06Contains(reg.chains, x) {
+				raw, canon = a.lower, a.lower
+				break
+			}
+		}
+		if raw == "" {
+			return
+		}
+	}
+	only := "dry-only-address"
+	if x == c06S {
+		seq := g.ackSeq[x] + 1
+		if len(g.commits[x]) > 0 {
+			seq = g.commits[x][0]
+		}
+		if only = c06PoolAckRelayer(seq); only == "" {
+			only = "x"
+		}
+	}
+	dry := func(addr string, chains, addrs []string) {
+		if r.Rng.Intn(10) == 0 {
+			addrs = addrs[:len(addrs)-1] // a proposal that fails ValidateBasic: not even dry-run
+		}
+		parts := []string{"regdry", modes[r.Rng.Intn(3)], "1", hxs(addr), fmt.Sprint(len(chains))}
+		for _, c := range chains {
+			parts = append(parts, hxs(c))
+		}
+		parts = append(parts, fmt.Sprint(len(addrs)))
+		for _, c := range addrs {
+			parts = append(parts, hxs(c))
+		}
+		g.run(strings.Join(parts, " "))
+	}
+	attempt := func(raw, canon, chain, rl string) {
+		g.run(fmt.Sprintf("q %s %s %s", hxs(chain), hxs(raw), hxs(strings.ToUpper(rl))))
+		g.genUpd(raw, canon, chain, true)
+		g.genRecv(raw, canon, chain, true)
+		if chain != c06S {
+			g.okCommit(chain)
+		}
+		g.forceRl = &rl
+		g.genAck(raw, canon, chain, true)
+		g.forceRl = nil
+	}
+	dry(raw, []string{x, "nocl"}, []string{only, "dry-2"})
+	attempt(raw, canon, x, only)
+	// a previously (committed) registered relayer of some chain: a discarded re-registration must not move it
+	var regd []string
+	for a := range g.w.lastReg {
+		regd = append(regd, a)
+	}
+	sort.Strings(regd)
+	if len(regd) > 0 {
+		ra := regd[r.Rng.Intn(len(regd))]
+		reg := g.w.lastReg[ra]
+		if len(reg.chains) > 0 && len(reg.addrs) == len(reg.chains) {
+			keep := reg.chains[r.Rng.Intn(len(reg.chains))]
+			rl, _ := reg.addrFor(keep)
+			dry(ra, []string{"nocl", x}, []string{"moved-dry", only})
+			attempt(ra, strings.ToLower(ra), keep, rl) // still what the committed registration says
+			if keep != x {
+				attempt(ra, strings.ToLower(ra), x, only) // and nothing more
+			}
+		}
+	}
+	if r.Rng.Intn(2) == 0 { // the same registration, committed: now it counts
+		g.run(fmt.Sprintf("reg 1 %s 1 %s 1 %s", hxs(raw), hxs(x), hxs(only)))
+		attempt(raw, canon, x, only)
+	}
+}
+
 // Chain names that differ only in letter case are different chains. A signer registered for exactly one
 // sibling attempts every message kind for the other one (everything else valid), is then moved to the target by a
 // re-registration (now accepted), and moved away again (rejected again). The payout lookup of an acknowledgement
@@ -616,6 +709,9 @@ func (g *c06Gen) history(steps int, sweep bool) {
 	if r.Rng.Intn(2) == 0 {
 		g.genSameAddrsRereg()
 	}
+	if r.Rng.Intn(2) == 0 {
+		g.genDiscarded()
+	}
 	if selfClient {
 		// receives of packets whose source is this chain: destination without client (error ack "dstChain not
 		// found") or with client (relay, no ack) — from the TSS account of the own-name client, registered for it
@@ -647,6 +743,8 @@ func (g *c06Gen) history(steps int, sweep bool) {
 			raw, canon = g.signer()
 		}
 		switch x := r.Rng.Intn(100); {
+		case x < 3:
+			g.genDiscarded()
 		case x < 14:
 			g.genReg(chain)
 		case x < 24:
